@@ -214,8 +214,9 @@ def gen_case(rng, bucket):
             elif k < 0.8:      # a new file is staged
                 nb = add({"k": "blob", "data": ("staged later %d\n" % rng.randrange(10**6)).encode().hex(), "at": [], "old": False})
                 extra += [{"op": "add", "obj": nb}, {"op": "stage", "obj": nb, "path": ("late%d" % nb).encode().hex()}]
-            else:              # an existing stored blob is staged
-                cand = [i for i, o in enumerate(objs) if o["k"] == "blob" and o["at"]]
+            else:              # a blob that is live (so: still there when this point of the history is reached) is staged once more
+                lv = live_ids({"objects": objs, "refs": refs, "head": head, "shallow": shallow, "index": index})
+                cand = [i for i, o in enumerate(objs) if o["k"] == "blob" and o["at"] and i in lv]
                 if cand:
                     b = rng.choice(cand)
                     extra.append({"op": "stage", "obj": b, "path": ("again%d" % b).encode().hex()})
@@ -364,7 +365,7 @@ class Main(Suite):
                         " [index entry]" if all(x[0] in [e["ref"] for e in index] for x in lost) else "")
                     break
                 if c.get("fsck"):
-                    new = [l for l in (rex[j].get("fsck_after") or []) if l not in (ex.get("fsck_before") or []) and ("missing" in l or "broken link" in l)]
+                    new = [l for l in (rex[j].get("fsck_after") or []) if l not in (rex[j].get("fsck_before") or []) and ("missing" in l or "broken link" in l)]
                     if new:
                         fails[c["id"]] = "round %d (%s): git fsck --strict newly reports %r" % (j + 1, rd["op"], new[:3])
                         break
